@@ -47,6 +47,8 @@ def config(sc, external):
            "gradient": {"number_of_perturbations": 3, "perturbation_magnitudes": 0.01}}
     if sc.get("maxfun"):
         cfg["optimizer"]["max_functions"] = sc["maxfun"]
+    if "minsucc" in sc:
+        cfg["realizations"]["realization_min_success"] = sc["minsucc"]
     if sc.get("mask"):
         cfg["variables"]["mask"] = [True, False, True]
     if sc.get("con"):
@@ -82,7 +84,7 @@ def run(sc, external, env_extra=None):
         h.update(obj.tobytes())
         return EvaluatorResult(objectives=obj, constraints=con)
 
-    old_env = {k: os.environ.get(k) for k in ("PATH", "RV_KILL_AFTER", "RV_CHILD_ERROR_AFTER", "RV_CHILD_ERROR_EMPTY")}
+    old_env = {k: os.environ.get(k) for k in ("PATH", "RV_KILL_AFTER", "RV_CHILD_ERROR_AFTER", "RV_CHILD_ERROR_EMPTY", "RV_TERM_AFTER_READ")}
     os.environ["PATH"] = BIN + ":/venv/bin:" + old_env["PATH"]
     for k, v in (env_extra or {}).items():
         os.environ[k] = str(v)
@@ -126,7 +128,9 @@ def drive(sc):
         return [e], {"nontrivial": True, "key": str(sc), "kind": kind, "evals": ext["evals"]}
     env = {}
     fault = sc["fault"]
-    if fault == "kill":
+    if fault == "kill" and sc.get("term"):
+        env["RV_TERM_AFTER_READ"] = sc["after"]
+    elif fault == "kill":
         env["RV_KILL_AFTER"] = sc["after"]
     elif fault == "childerror":
         env["RV_CHILD_ERROR_AFTER"] = sc["after"]
@@ -154,17 +158,21 @@ def extra_scenarios(tier, seed):
     out = []
     if tier == "quick":
         kills, methods = (1, 3, 4), ("slsqp",)
-        pairs = [{"method": "slsqp", "con": True, "maxfun": 6, "start": [1.0, -1.0, 0.25]}, {"method": "cobyla", "mask": True, "maxfun": 8}]
+        pairs = [{"method": "slsqp", "con": True, "maxfun": 6, "start": [1.0, -1.0, 0.25]}, {"method": "cobyla", "mask": True, "maxfun": 8},
+                 {"method": "differential_evolution", "maxfun": 10, "nanAt": 2, "minsucc": 0}]
     else:
         kills, methods = (-1, 1, 2, 3, 4, 5, 6), ("slsqp", "cobyla", "differential_evolution")
         pairs = [{"method": "slsqp", "con": True, "maxfun": 10}, {"method": "slsqp", "mask": True}, {"method": "slsqp", "rel": True, "maxfun": 6},
                  {"method": "cobyla", "mask": True, "maxfun": 8}, {"method": "cobyla", "con": True, "maxfun": 8},
                  {"method": "differential_evolution", "maxfun": 10}, {"method": "l-bfgs-b", "maxfun": 6}, {"method": "nelder-mead", "maxfun": 8},
                  {"method": "slsqp", "nanAt": 3}, {"method": "tnc", "maxfun": 6},
+                 {"method": "differential_evolution", "maxfun": 10, "nanAt": 2, "minsucc": 0},
                  {"method": "slsqp", "maxfun": 6, "start": [1.0, -1.0, 0.25]}, {"method": "cobyla", "maxfun": 6, "start": [0.0, 0.5, 1.0], "mask": True}]
     for m in methods:
         for k in kills:
             out.append({"kind": "fault", "fault": "kill", "after": k, "method": m, "maxfun": 12})
+    for k in ((3,) if tier == "quick" else (1, 2, 3, 4, 5)):
+        out.append({"kind": "fault", "fault": "kill", "term": True, "after": k, "method": "slsqp", "maxfun": 12})
     for j in ((2,) if tier == "quick" else (1, 2, 3, 4)):
         out.append({"kind": "fault", "fault": "raise", "raiseAt": j, "method": "slsqp"})
     out.append({"kind": "fault", "fault": "stop", "method": "slsqp", "maxfun": 2})
